@@ -21,6 +21,7 @@ const c12Watchdog = 8 * time.Second
 type reentry struct {
 	b          *eventlogger.Broker
 	parkWriter bool
+	writerKind string // regnode (default) or setthr: a threshold setter for the outer event type
 	writers    *sync.WaitGroup
 	parked     *int32
 	label      string
@@ -36,9 +37,18 @@ func (re *reentry) enter(ctx context.Context) {
 		id := fmt.Sprintf("writer-%d", atomic.AddInt64(&writerCtr, 1))
 		done := make(chan struct{})
 		re.writers.Add(1)
+		frame := "eventlogger.(*Broker).RegisterNode"
+		if re.writerKind == "setthr" {
+			frame = "eventlogger.(*Broker).SetSuccessThreshold"
+		}
 		go func() {
 			defer re.writers.Done()
 			defer close(done)
+			if re.writerKind == "setthr" {
+				re.b.SetSuccessThreshold("to", 0)
+				re.b.SetSuccessThresholdSinks("to", 0)
+				return
+			}
 			re.b.RegisterNode(eventlogger.NodeID(id), &plainNode{typ: eventlogger.NodeTypeFilter})
 		}()
 		// wait until the writer either finished (nobody holds the lock) or is parked on it
@@ -51,7 +61,7 @@ func (re *reentry) enter(ctx context.Context) {
 			default:
 			}
 			for _, g := range rt.Goroutines() {
-				if g.Has("eventlogger.(*Broker).RegisterNode") && strings.HasPrefix(g.State, "sync.RWMutex.Lock") {
+				if g.Has(frame) && g.Parked() {
 					atomic.AddInt32(re.parked, 1)
 					break wait
 				}
@@ -84,11 +94,16 @@ type c12Scenario struct {
 	Op       string // send reopen rmnode rmpipenodes seq
 	Callback string // process close reopen gated-close gated-expire none
 	Writer   bool
-	Pending  int // gated pending groups
+	WKind    string // kind of the concurrent writer: "" = RegisterNode, "setthr" = threshold setters
+	Pending  int    // gated pending groups
 }
 
 func (s c12Scenario) String() string {
-	return fmt.Sprintf("%s/%s/writer=%v/pending=%d", s.Op, s.Callback, s.Writer, s.Pending)
+	w := fmt.Sprint(s.Writer)
+	if s.Writer && s.WKind != "" {
+		w = s.WKind
+	}
+	return fmt.Sprintf("%s/%s/writer=%s/pending=%d", s.Op, s.Callback, w, s.Pending)
 }
 
 // underWatchdog runs f on its own goroutine. On expiry the goroutine's state decides.
@@ -135,7 +150,11 @@ func underWatchdog(run *rt.Run, sc c12Scenario, what string, frame string, f fun
 		if len(all) > 6 {
 			all = all[:6]
 		}
-		run.Violation("deadlock:"+sc.Op+"/"+sc.Callback+fmt.Sprintf("/writer=%v", sc.Writer), what+" did not return: its goroutine is parked forever at "+s1,
+		wk := fmt.Sprint(sc.Writer)
+		if sc.Writer && sc.WKind != "" {
+			wk = sc.WKind
+		}
+		run.Violation("deadlock:"+sc.Op+"/"+sc.Callback+"/writer="+wk, what+" did not return: its goroutine is parked forever at "+s1,
 			map[string]any{"scenario": sc.String(), "goroutine": raw, "parked_library_goroutines": all})
 	} else {
 		run.Inconclusive("call did not return within the watchdog but is not provably parked: " + sc.String() + " " + what + " state=" + s2)
@@ -148,7 +167,7 @@ func runC12Scenario(run *rt.Run, sc c12Scenario) {
 	log := &Log{}
 	var writers sync.WaitGroup
 	var parked int32
-	re := &reentry{b: b, parkWriter: sc.Writer, writers: &writers, parked: &parked, label: sc.String()}
+	re := &reentry{b: b, parkWriter: sc.Writer, writerKind: sc.WKind, writers: &writers, parked: &parked, label: sc.String()}
 	must := func(err error) {
 		if err != nil {
 			panic(fmt.Sprintf("setup %s: %v", sc, err))
@@ -290,6 +309,13 @@ func TestC12(t *testing.T) {
 				c12Scenario{Op: "send", Callback: "gated-expire", Writer: w, Pending: p},
 				c12Scenario{Op: "rmnode-refused", Callback: "gated-close", Writer: w, Pending: p},
 			)
+		}
+	}
+	// the same re-entry scenarios with a threshold setter (instead of RegisterNode) as the waiting writer
+	for _, sc := range append([]c12Scenario(nil), scs...) {
+		if sc.Writer && sc.Callback != "none" {
+			sc.WKind = "setthr"
+			scs = append(scs, sc)
 		}
 	}
 	reps := run.Pick(4, 60)
